@@ -49,7 +49,7 @@ UNITS = [[1, 0], [0, 600000000000000000], [3, 999999999999999999], [0, 1], [0, 2
 
 # RootRule / CkSelf describe the tree being verified; they are flipped to the repaired values by
 # the same commit that repairs the code (see known_findings.json "fixed" entries).
-CODE_MODEL = {"RootRule": '"genesis"', "CkSelf": '"both"', "CanonRule": '"guarded"'}
+CODE_MODEL = {"RootRule": '"genesis"', "CkSelf": '"both"', "CanonRule": '"guarded"', "NoTipRule": '"error"'}
 
 SHAPES = {
     # name: (nodes, wallets, sealers, profile)
@@ -69,7 +69,7 @@ def mc_constants(shape, maxv, inflight, maxcraft, toggle, trunc=2, jump="{}", ma
          "Sealers": tla_set(sealers), "MaxV": str(maxv), "MaxInflight": str(inflight), "JumpW": jump,
          "Profile": '"%s"' % profile, "MaxCraft": str(maxcraft), "MaxToggle": str(toggle),
          "GenDepth": str(gendepth), "MaxThr": str(maxthr)}
-    c.update(model or {"RootRule": '"genesis"', "CkSelf": '"both"', "CanonRule": '"guarded"'})
+    c.update(model or {"RootRule": '"genesis"', "CkSelf": '"both"', "CanonRule": '"guarded"', "NoTipRule": '"error"'})
     return c
 
 
@@ -238,6 +238,31 @@ def fam_trunc_cancel(rng):
             out.append(("single", depth, chain[:5] + [{"op": "truncate", "n": "N1"}] + chain[5:] + [{"op": "truncate", "n": "N1", "cancel": k}]))
             if k % 2 == 1:
                 out.append(("single", depth, side + [{"op": "truncate", "n": "N1", "cancel": k}]))
+    return out
+
+
+def fam_weights(rng):
+    """A delivered vertex that claims a weight far above its parents' moves the weight window: tips below the window
+    become invalid (and are dropped by the next proposal), deliveries below it are refused.  Around the boundary
+    weight = current - throughput, and far above it."""
+    out = []
+    for w in list(range(56, 72)) + [100, 300, 5000]:
+        pre = [G(), P("N1", "t1", 2), P("N1", "t2", 3), {"op": "craft", "s": "N2", "t": "t5", "l": 3, "r": 3, "w": w, "id": 4},
+               P("N1", "t3", 5)]
+        # the claimed weight arrives while an honest tip of small weight exists
+        out.append(("single", 1, pre + [D("N1", 4), P("N1", "t4", 6), {"op": "balance", "n": "N1", "wl": "A"},
+                                        {"op": "balance", "n": "N1", "wl": "B"}, P("N1", "t6", 7)]))
+        # a low-weight vertex delivered after the window has moved
+        out.append(("single", 1, pre + [{"op": "craft", "s": "N2", "t": "t4", "l": 3, "r": 3, "w": 4, "id": 6}, D("N1", 4), D("N1", 6),
+                                        P("N1", "t6", 7)]))
+        # the vertex that moved the window is itself an overdraft: it is dropped, the window stays, and proposal after
+        # proposal drops the ledger tip by tip until no tip is left (finding F18: the next proposal used to panic)
+        if w >= 70:
+            out.append(("single", 1, [G(), P("N1", "t1", 2), {"op": "craft", "s": "N2", "t": "t6", "l": 2, "r": 2, "w": w, "id": 3},
+                                      D("N1", 3)] + [P("N1", "t2", 4)] * 6 + [{"op": "balance", "n": "N1", "wl": "A"}]))
+        # and truncation afterwards
+        out.append(("single", 2, pre + [D("N1", 4), P("N1", "t4", 6), P("N1", "t6", 7), {"op": "truncate", "n": "N1"},
+                                        {"op": "balance", "n": "N1", "wl": "A"}]))
     return out
 
 
@@ -458,7 +483,7 @@ ALL_EVENTS = ["History", "BalanceRaced", "Reset", "Genesis", "ProposePre", "Prop
 PROPS = {
     "C01": dict(strict=["ProposeCommit", "DeliverCommit", "Truncate", "Wedged"],
                 inv=["TypeOK"], prop=["C01_NoOverdraftConfirmed", "C01_OnlyTipsDropped", "C03_Reproposable"],
-                gens=[("single", 1.0)], fams=["truncation", "concurrent"], mc="single"),
+                gens=[("single", 1.0)], fams=["truncation", "concurrent", "weights"], mc="single"),
     "C02": dict(strict=["Wedged"], inv=["C02_ModuloF10"], prop=[],
                 gens=[("two", 1.0)], fams=["doublespend"], mc="two"),
     "C03": dict(strict=["ProposePre", "ProposeCommit", "DeliverPre", "DeliverCommit", "TickPop", "Wedged"],
@@ -492,6 +517,7 @@ FAMS = {
     "doublespend": lambda rng, tier: fam_doublespend(rng),
     "rules": lambda rng, tier: fam_rules(rng),
     "canon": lambda rng, tier: fam_canon(rng),
+    "weights": lambda rng, tier: fam_weights(rng),
 }
 
 MC_CONFIGS = {
